@@ -9,5 +9,5 @@ for c in "$@"; do
   echo "EVAL check $c exit=$RC $(echo "$OUT" | grep -c '^VIOLATION') violation line(s)"
   echo "$OUT" | grep -E "^  C[0-9]+ \[" | head -4 | cut -c1-400
 done
-git -C /repo checkout -- .
+git -C /repo checkout -- . && git -C /repo clean -fdq src tests
 echo "EVAL: reverted ($(git -C /repo status --porcelain | wc -l) dirty)"
